@@ -207,7 +207,7 @@ func propC06(c *Ctx) {
 		}
 		nRet++
 		vals := returnValues(ret)
-		if u, ok := vals[0].(*ssa.UnOp); !ok || u.X != ssa.Value(errDone) {
+		if !isSentinelValue(vals[0], errDone) {
 			badRet = true
 		}
 		return false
